@@ -330,7 +330,16 @@ func legC14Interleave(c *Ctx) {
 			re.MatchTimeout = 20 * time.Millisecond
 			c14TakeStall()
 			t0 := time.Now()
-			_, err := re.MatchString(strings.Repeat("a", 40) + "b")
+			done := make(chan error, 1)
+			go func() { _, e := re.MatchString(strings.Repeat("a", 32) + "b"); done <- e }()
+			var err error
+			select {
+			case err = <-done:
+			case <-time.After(3 * time.Second):
+				cs.Direct = fmt.Sprintf("round %d: after an untimed call on the same Regexp, MatchTimeout=20ms is ignored: the catastrophic match is still running after 3 s", round)
+				c.Add(cs)
+				goto afterTimeoutField // (the abandoned match keeps a core busy until the process ends)
+			}
 			el := time.Since(t0)
 			if err == nil {
 				cs.Direct = fmt.Sprintf("round %d: after an untimed call, MatchTimeout=20ms was ignored: the catastrophic match ran to completion in %v", round, el.Round(time.Millisecond))
@@ -344,6 +353,7 @@ func legC14Interleave(c *Ctx) {
 		}
 		c.Add(cs)
 	}
+afterTimeoutField:
 	c.Gate("continuation scans ran", conts >= 10)
 	c.Gate("interleaving scenarios ran", ran >= 16)
 }
